@@ -40,6 +40,7 @@ func init() {
 			{ID: "C01-R5", Title: "lexical scoping: nearest-scope-first resolution, per-activation variable storage (shared with C02-R2/R3)", Floor: 5, Run: func(c *core.Ctx) { c02r2(c); c02r3(c); c02r4(c); c02r5(c); c02r6(c) }},
 			{ID: "C01-R14", Title: "raw string text becomes a constant only where the literal is not a template", Floor: 1, Run: plainStringConstantsOnlyForPlainStrings},
 			{ID: "C01-R15", Title: "block scopes are opened on every path that compiles the block", Floor: 3, Run: blockScopesOpenedUnconditionally},
+			{ID: "C01-R16", Title: "hand-made indices into a parallel sequence advance on every path", Floor: 1, Run: counterAdvancedBeforeContinue},
 		},
 	})
 }
